@@ -100,7 +100,7 @@ def normalsCfg (c : Cfg) : Op → Prop
     `c.dims` words, in every reachable state -/
 theorem splitLen_reachable (c : Cfg) (hi : c.index < 65536) (ops : List Op) (hops : ∀ op ∈ ops, op.wf)
     (hN : ∀ op ∈ ops, normalsCfg c op) : SplitLen c c.dims (run ops) := by
-  apply C01_history_induction freshSupply c hi (SplitLen c c.dims) (normalsCfg c) _ _ _ _ ops hops hN
+  apply C01_history_induction freshSupply c hi (SplitLen c c.dims) (normalsCfg c) _ _ _ _ _ ops hops hN
   · exact SplitLen.nil c c.dims
   · intro s s' _ _ m hP id v hg
     rw [m.tree] at hg
@@ -112,6 +112,9 @@ theorem splitLen_reachable (c : Cfg) (hi : c.index < 65536) (ops : List Op) (hop
     exact (SplitLen.congr_index he).1
       (Build.build_splitLen (c := c') (d := c.dims) o fuel { env with store := s } st' hb
         ((SplitLen.congr_index he).2 hP) (hq he))
+  · intro s c' m' s' _ _ _ _ _ _ hu _ id v hg
+    rw [hu.2 id] at hg
+    cases hg
 
 /-- **C04 (normal lengths over histories)**: after any history (item operations and builds on any indexes,
     any oracle streams, options, cancellation schedules) in which every build of index `c.index` is run
